@@ -19,15 +19,15 @@ class Grids:
     def __init__(self, A, tier):
         self.A = A
         q = tier == 'quick'
-        self.dur = list(al.DUR_CORE) + [d for d in A['dur'] if d not in al.DUR_CORE]
-        self.acc = [''] + list(al.ACC_CORE) + [a for a in A['acc'] if a not in al.ACC_CORE]
+        self.dur = al.with_pinned(list(al.DUR_CORE) + [d for d in A['dur'] if d not in al.DUR_CORE], al.DUR_PINNED)
+        self.acc = al.with_pinned([''] + list(al.ACC_CORE) + [a for a in A['acc'] if a not in al.ACC_CORE], al.ACC_PINNED)
         # core members first and unconditionally: a parser change that drops or re-classifies one of them is a violation,
         # not a silently smaller domain; the extension is what the current parser additionally accepts
         core_dec = list(al.DEC_CORE) + list(al.DEC_ONLY_CORE)
-        self.dec = core_dec + [d for d in A['dec'] if d not in core_dec]
+        self.dec = al.with_pinned(core_dec + [d for d in A['dec'] if d not in core_dec], al.DEC_PINNED)
         self.canon = list(al.CANON_CORE) + [d for d in A['canon'] if d not in al.CANON_CORE]
-        self.restdec = list(al.REST_DEC_CORE) + [d for d in A['restdec'] if d not in al.REST_DEC_CORE]
-        self.disp = list(A['disp'])
+        self.restdec = al.with_pinned(list(al.REST_DEC_CORE) + [d for d in A['restdec'] if d not in al.REST_DEC_CORE], al.REST_DEC_PINNED)
+        self.disp = al.with_pinned(list(A['disp']), al.DISP_PINNED)
         self.bartype = [''] + list(al.BARTYPE_CORE)
         self.pitches = PITCHES[:3] if q else PITCHES
         self.quick = q
